@@ -200,7 +200,7 @@ pub fn main(args: &[String]) -> i32 {
     for step in 0..steps {
         crate::util::watchdog::beat(&format!("step {step} after {} events", cx.events));
         let ki = match (forced_key, forced.front()) {
-            (Some(fk), Some((100 | 101, _))) => fk,
+            (Some(fk), Some((100 | 101 | 103 | 104 | 105, _))) => fk,
             _ => rng.random_range(0..keys.len()),
         };
         let key = keys[ki].clone();
@@ -275,6 +275,20 @@ pub fn main(args: &[String]) -> i32 {
             forced.push_back((100, 0));
             forced.push_back((100, 0));
         }
+        // targeted burst: a short-lived key is written and flushed (its value leaves memory), its TTL is renewed or
+        // removed BEFORE the next flush (the new generation borrows the bytes on the device), time passes beyond
+        // the ORIGINAL deadline, then reads and scans
+        if forced.is_empty() && cfg.ttl && !(cfg.pers && cfg.fmt == 1) && key.len() < 100 && rng.random_range(0..(if bias == "ttl" || bias == "range" { 25 } else { 60 })) == 0 {
+            forced_key = Some(ki);
+            forced.push_back((103, 2));
+            forced.push_back((22, 0));
+            forced.push_back((104, if rng.random_bool(0.5) { 30 } else { 0 }));
+            if rng.random_bool(0.3) { forced.push_back((22, 0)); }
+            for _ in 0..3 { forced.push_back((21, 0)); }
+            forced.push_back((19, 50));
+            forced.push_back((105, 0));
+            forced.push_back((19, 0));
+        }
         match bias.as_str() {
             "range" if forced.is_empty() && rng.random_range(0..3) == 0 => op = 19,
             "ttl" if forced.is_empty() && rng.random_range(0..4) == 0 => op = [3, 15, 16, 21, 23, 10][rng.random_range(0..6)],
@@ -298,6 +312,21 @@ pub fn main(args: &[String]) -> i32 {
                 auto = false;
                 val = vec![b'Q'; cfg.lim as usize + 1];
             }
+            if fop == 103 {
+                op = 3;
+                ttl = fttl;
+                ts_choice = None;
+                auto = true;
+                ts_val = 0;
+                val = vec![b'r'; 40];
+            }
+            if fop == 104 {
+                op = 15;
+                ttl = fttl;
+            }
+            if fop == 105 {
+                op = 4;
+            }
             if fop == 3 {
                 ttl = fttl;
                 ts_choice = None;
@@ -305,7 +334,7 @@ pub fn main(args: &[String]) -> i32 {
                 ts_val = 0;
             }
             if fop == 19 {
-                forced_lim = Some(rng.random_range(1..3));
+                forced_lim = Some(if fttl > 0 { fttl as usize } else { rng.random_range(1..3) });
             }
         }
         let mut ev;
